@@ -29,6 +29,29 @@ def _field_stores(fn, field):
     return out
 
 
+def _tail_verified(e, truth):
+    """Is (e evaluated to truth) the edge on which `H->prev->next` is NULL - the node the back link designates has no successor, so
+    it is the last one and the link needs no repair?  (if ((object->child == first) && (first->prev->next == NULL)) return;)"""
+    e = strip_casts(e)
+    neg = False
+    while e.get('k') == 'un' and e['op'] == '!':
+        e = strip_casts(e['e'])
+        neg = not neg
+    x = None
+    if e.get('k') == 'bin' and e['op'] in ('==', '!='):
+        other = e['l'] if is_null_const(e['r']) else (e['r'] if is_null_const(e['l']) else None)
+        if other is None:
+            return False
+        x = strip_casts(other)
+        isnull_when_true = (e['op'] == '==') != neg
+    else:
+        x = e
+        isnull_when_true = neg
+    if x.get('k') == 'mem' and x['f'] == 'next' and strip_casts(x['b']).get('k') == 'mem' and strip_casts(x['b'])['f'] == 'prev':
+        return isnull_when_true == truth
+    return False
+
+
 def _null_side(e, truth, names):
     """Is (e evaluated to truth) the edge on which one of the expressions in names is NULL?"""
     e = strip_casts(e)
@@ -152,6 +175,8 @@ def lst1(units, R):
                         if lab is not None and lab[0] in ('T', 'F'):
                             if _null_side(lab[1], lab[0] == 'T', names | nn_out):
                                 continue
+                            if forward and _tail_verified(lab[1], lab[0] == 'T'):
+                                continue
                             if forward:
                                 nm = _nonnull_name(lab[1], lab[0] == 'T')
                                 if nm is not None:
@@ -255,6 +280,8 @@ def lst1(units, R):
                 x = work.pop()
                 for (y, lab) in cfg.succ[x]:
                     if lab is not None and lab[0] in ('T', 'F') and _null_side(lab[1], lab[0] == 'T', names):
+                        continue
+                    if lab is not None and lab[0] in ('T', 'F') and _tail_verified(lab[1], lab[0] == 'T'):
                         continue
                     if y in P or y in seen:
                         continue
